@@ -2,7 +2,7 @@
     (CursorCodec.v) and the harness's cursor order: their hypotheses are met by it. *)
 From Coq Require Import List ZArith Bool.
 From ApiFu Require Import Base.Sexp Relay.CursorCodec Relay.CursorCodecProofs
-     Relay.RelayModel Relay.RelaySpec Relay.RelayProofs.
+     Relay.RelayModel Relay.RelayModelF Relay.RelaySpec Relay.RelayProofs Relay.RelaySerFailProofs.
 Import ListNotations.
 Open Scope Z_scope.
 
@@ -34,5 +34,31 @@ Section Instance.
   Proof.
     apply (walk_backward_exact cursor E cursor_ltb cur cursor_ltb_irrefl cursor_ltb_trans cursor_ltb_total
              cursor_encode (cursor_decode k) a edges S Happ decode_encode_instance cursor_encode_nonempty).
+  Qed.
+  (** stage B: the same through the model the check runs (SerializeCursor with its length bound)
+      and through one-directional connections *)
+  Lemma enc_ok_instance : forall e, In e S -> enc_ok cursor E cur cursor_encode cursor_encode_f e.
+  Proof.
+    intros e He. destruct (Hcur e He) as [_ [_ Hlen]]. unfold enc_ok, cursor_encode_f. cbv zeta. rewrite Hlen. reflexivity.
+  Qed.
+
+  Theorem walk_forward_dir_codec d n : d = ForwardOnly \/ d = Bidirectional -> 1 <= n ->
+    walk_forward E (as_server_dir cursor E cursor_ltb cur cursor_encode_f (cursor_decode k) d a) n (Datatypes.S (length S)) None
+    = Done S.
+  Proof.
+    intros Hd Hn.
+    exact (walk_forward_exact_dir cursor E cursor_ltb cur cursor_ltb_irrefl cursor_ltb_trans cursor_ltb_total
+             cursor_encode cursor_encode_f (cursor_decode k) a edges S d Happ enc_ok_instance decode_encode_instance
+             cursor_encode_nonempty Hd n Hn).
+  Qed.
+
+  Theorem walk_backward_dir_codec d n : d = BackwardOnly \/ d = Bidirectional -> 1 <= n ->
+    walk_backward E (as_server_dir cursor E cursor_ltb cur cursor_encode_f (cursor_decode k) d a) n (Datatypes.S (length S)) None
+    = Done S.
+  Proof.
+    intros Hd Hn.
+    exact (walk_backward_exact_dir cursor E cursor_ltb cur cursor_ltb_irrefl cursor_ltb_trans cursor_ltb_total
+             cursor_encode cursor_encode_f (cursor_decode k) a edges S d Happ enc_ok_instance decode_encode_instance
+             cursor_encode_nonempty Hd n Hn).
   Qed.
 End Instance.
